@@ -252,11 +252,23 @@ theorem adatetimeInit_some (y mo d h mi s us : Option Nat) (p : ADT)
 
 /-- What `_parse_datestring` guarantees about a successfully parsed date. -/
 def ADT.wf (p : ADT) : Prop :=
-  p.prefixShaped ∧ p.fieldsOk ∧ ∃ y, p.year = some y ∧ y ≤ 9999
+  p.prefixShaped ∧ p.fieldsOk ∧ ∃ y, p.year = some y ∧ 1 ≤ y ∧ y ≤ 9999
+
+theorem yearField_ok (cs : List Nat) (o : Option Nat) (h : yearField cs = .ok o) :
+    field cs 4 0 4 = .ok o ∧ o ≠ some 0 := by
+  unfold yearField at h
+  split at h
+  · cases h
+  · rename_i hne
+    refine ⟨h, ?_⟩
+    intro h0
+    subst h0
+    exact hne h
 
 theorem parseDatestring_wf (cs : List Nat) (p : ADT) (h : parseDatestring cs = .ok p) : p.wf := by
   unfold parseDatestring at h
-  obtain ⟨y, hy, h⟩ := bind_ok _ _ _ h
+  obtain ⟨y, hy0, h⟩ := bind_ok _ _ _ h
+  obtain ⟨hy, hyne⟩ := yearField_ok cs y hy0
   obtain ⟨mo, hmo, h⟩ := bind_ok _ _ _ h
   obtain ⟨d, hd, h⟩ := bind_ok _ _ _ h
   obtain ⟨hh, hhh, h⟩ := bind_ok _ _ _ h
@@ -331,7 +343,10 @@ theorem parseDatestring_wf (cs : List Nat) (p : ADT) (h : parseDatestring cs = .
         subst e1 e2 e3 e4 e5 e6
         simp [ADT.void] at hvoid
       | some y0 =>
-        refine ⟨y0, rfl, ?_⟩
+        refine ⟨y0, rfl, ?_, ?_⟩
+        · cases y0 with
+          | zero => exact absurd rfl hyne
+          | succ k => omega
         have := Y.2 y0 rfl
         have hl : ((cs.take 4).drop 0).length ≤ 4 := by simp
         have : 10 ^ ((cs.take 4).drop 0).length ≤ 10 ^ 4 := Nat.pow_le_pow_right (by decide) hl
@@ -342,10 +357,10 @@ theorem parseDatestring_wf (cs : List Nat) (p : ADT) (h : parseDatestring cs = .
 /-- For a date as `_parse_datestring` produces it (year ≥ 1): `floor` and `ceil` succeed, are valid
     datetimes of the period, and a valid datetime lies between them iff it agrees with the partial
     date on every specified attribute. -/
-theorem floor_ceil (p : ADT) (hw : p.wf) (h1 : ∀ y, p.year = some y → 1 ≤ y) :
+theorem floor_ceil (p : ADT) (hw : p.wf) :
     ∃ f cl, p.floor = .ok f ∧ p.ceil = .ok cl ∧ f.valid ∧ cl.valid ∧ p.agrees f ∧ p.agrees cl ∧
       ∀ c : Civil, c.valid → ((civilLt c f = false ∧ civilLt cl c = false) ↔ p.agrees c) := by
-  obtain ⟨hshape, hok, y, hy, hy9⟩ := hw
+  obtain ⟨hshape, hok, y, hy, h1', hy9⟩ := hw
   refine ⟨⟨y, p.month.getD 1, p.day.getD 1, p.hour.getD 0, p.minute.getD 0, p.second.getD 0,
       p.micro.getD 0⟩,
     ⟨y, p.month.getD 12, (match p.day with
@@ -357,7 +372,6 @@ theorem floor_ceil (p : ADT) (hw : p.wf) (h1 : ∀ y, p.year = some y → 1 ≤ 
   all_goals
     simp only [Option.some.injEq] at hy
     subst hy
-    have h1' := h1 y' rfl
     obtain ⟨k1, k2, k3, k4, k5, k6, k7⟩ := hok
     simp only [Option.some.injEq, forall_eq', reduceCtorEq, false_imp_iff, implies_true] at k1 k2 k3 k4 k5 k6 k7
     have D1 := dim_bounds (isLeap y') 1 (by omega) (by omega)
@@ -411,5 +425,130 @@ theorem civilLt_false_trans (a b c : Civil) (ha : a.valid) (hb : b.valid) (hc : 
   cases hca : civilLt c a with
   | false => rfl
   | true => have := C.2 hca; omega
+
+/-! ### the inverse calendar -/
+
+theorem monthDay_table : ∀ (leap : Bool) (r : Fin 366), (r.val < 365 ∨ leap = true) →
+    1 ≤ (monthDay leap r.val).1 ∧ (monthDay leap r.val).1 ≤ 12 ∧ 1 ≤ (monthDay leap r.val).2 ∧
+    (monthDay leap r.val).2 ≤ daysInMonth leap (monthDay leap r.val).1 ∧
+    daysBeforeMonth leap (monthDay leap r.val).1 + (monthDay leap r.val).2 = r.val + 1 := by
+  decide +kernel
+
+theorem dby_decomp (a b c e : Nat) (hb : b ≤ 3) (hc : c ≤ 24) (he : e ≤ 3) :
+    daysBeforeYear (400 * a + 100 * b + 4 * c + e + 1) = 146097 * a + 36524 * b + 1461 * c + 365 * e := by
+  unfold daysBeforeYear
+  simp only [Nat.add_sub_cancel]
+  have d4 : (400 * a + 100 * b + 4 * c + e) / 4 = 100 * a + 25 * b + c := by omega
+  have d100 : (400 * a + 100 * b + 4 * c + e) / 100 = 4 * a + b := by omega
+  have d400 : (400 * a + 100 * b + 4 * c + e) / 400 = a := by omega
+  rw [d4, d100, d400]
+  omega
+
+theorem leap_decomp (a b c e : Nat) (hb : b ≤ 3) (hc : c ≤ 24) (he : e ≤ 3) :
+    isLeap (400 * a + 100 * b + 4 * c + e + 1) = decide (e = 3 ∧ (c ≠ 24 ∨ b = 3)) := by
+  have m4 : (400 * a + 100 * b + 4 * c + e + 1) % 4 = 0 ↔ e = 3 := by omega
+  have m100 : (400 * a + 100 * b + 4 * c + e + 1) % 100 = 0 ↔ (c = 24 ∧ e = 3) := by omega
+  have m400 : (400 * a + 100 * b + 4 * c + e + 1) % 400 = 0 ↔ (b = 3 ∧ c = 24 ∧ e = 3) := by omega
+  rw [Bool.eq_iff_iff, isLeap_iff, decide_eq_true_eq, m4, m400]
+  have : (400 * a + 100 * b + 4 * c + e + 1) % 100 ≠ 0 ↔ ¬ (c = 24 ∧ e = 3) := not_congr m100
+  rw [this]
+  omega
+
+/-- `_ord2ymd` inverts `toordinal`: it returns a valid date with the given ordinal. -/
+theorem ord2ymd_spec (n : Nat) (h1 : 1 ≤ n) (h2 : n ≤ 3652059) :
+    1 ≤ (ord2ymd n).1 ∧ (ord2ymd n).1 ≤ 9999 ∧ 1 ≤ (ord2ymd n).2.1 ∧ (ord2ymd n).2.1 ≤ 12 ∧
+    1 ≤ (ord2ymd n).2.2 ∧
+    (ord2ymd n).2.2 ≤ daysInMonth (isLeap (ord2ymd n).1) (ord2ymd n).2.1 ∧
+    ordinal (ord2ymd n).1 (ord2ymd n).2.1 (ord2ymd n).2.2 = n := by
+  obtain ⟨N, rfl⟩ : ∃ N, n = N + 1 := ⟨n - 1, by omega⟩
+  unfold ord2ymd
+  simp only [Nat.add_sub_cancel]
+  -- the cycle decomposition
+  generalize ha : N / 146097 = a at *
+  generalize hb : N % 146097 / 36524 = b at *
+  generalize hc : N % 146097 % 36524 / 1461 = c at *
+  generalize he : N % 146097 % 36524 % 1461 / 365 = e at *
+  generalize hr : N % 146097 % 36524 % 1461 % 365 = q at *
+  have hN : N = 146097 * a + 36524 * b + 1461 * c + 365 * e + q := by omega
+  have hb4 : b ≤ 4 := by omega
+  have hc24 : c ≤ 24 := by omega
+  have he4 : e ≤ 4 := by omega
+  have hq : q < 365 := by omega
+  have hb4' : b = 4 → c = 0 ∧ e = 0 ∧ q = 0 := by omega
+  have he4' : e = 4 → q = 0 ∧ (b ≤ 3 → c ≤ 23) := by omega
+  have ha24 : a ≤ 24 := by omega
+  by_cases hx : e = 4 ∨ b = 4
+  · simp only [hx, if_true]
+    -- the last day of a leap year
+    obtain ⟨b', c', hY, hb', hc'⟩ : ∃ b' c', a * 400 + 1 + b * 100 + c * 4 + e - 1 =
+        400 * a + 100 * b' + 4 * c' + 3 + 1 ∧ b' ≤ 3 ∧ c' ≤ 24 ∧ (c' ≠ 24 ∨ b' = 3) ∧
+        146097 * a + 36524 * b' + 1461 * c' + 1460 = N := by
+      rcases hx with h | h
+      · exact ⟨b, c, by omega, by omega, by omega, by omega, by omega⟩
+      · exact ⟨3, 24, by omega, by omega, by omega, by omega, by omega⟩
+    obtain ⟨hc', hlp, hN'⟩ := hc'
+    rw [hY]
+    have L := leap_decomp a b' c' 3 hb' hc' (by omega)
+    have hL : isLeap (400 * a + 100 * b' + 4 * c' + 3 + 1) = true := by
+      rw [L]; simpa using hlp
+    have D := dby_decomp a b' c' 3 hb' hc' (by omega)
+    unfold ordinal
+    rw [hL, D]
+    have e1 : daysBeforeMonth true 12 = 335 := by decide
+    have e2 : daysInMonth true 12 = 31 := rfl
+    rw [e1, e2]
+    omega
+  · simp only [hx, if_false]
+    have hb3 : b ≤ 3 := by omega
+    have he3 : e ≤ 3 := by omega
+    have hY : a * 400 + 1 + b * 100 + c * 4 + e = 400 * a + 100 * b + 4 * c + e + 1 := by omega
+    rw [hY]
+    have L := leap_decomp a b c e hb3 hc24 he3
+    have D := dby_decomp a b c e hb3 hc24 he3
+    have T := monthDay_table (decide (e = 3 ∧ (c ≠ 24 ∨ b = 3))) ⟨q, by omega⟩ (Or.inl hq)
+    simp only at T
+    unfold ordinal
+    rw [L, D]
+    omega
+
+theorem ord_le_max (a : Civil) (ha : a.valid) : ordinal a.year a.month a.day ≤ 3652059 := by
+  obtain ⟨a1, a2, a3, a4, a5, a6, _⟩ := ha
+  have B := dbm_next (isLeap a.year) a.month 13 a3 (by omega) (by omega)
+  rw [dbm_13] at B
+  unfold ordinal
+  by_cases h : a.year = 9999
+  · rw [h] at B a6 ⊢
+    have : isLeap 9999 = false := by decide
+    rw [this] at B a6 ⊢
+    rw [dby_9999]
+    simp only [Bool.false_eq_true, if_false] at B
+    omega
+  · have A := dby_next a.year 9999 a1 (by omega)
+    rw [dby_9999] at A
+    split at A <;> split at B <;> omega
+
+/-- `_ord2ymd (toordinal (y, m, d)) = (y, m, d)` on valid dates. -/
+theorem ord2ymd_ordinal (c : Civil) (hc : c.valid) :
+    ord2ymd (ordinal c.year c.month c.day) = (c.year, c.month, c.day) := by
+  have hb := ord_bounds c hc
+  have hm := ord_le_max c hc
+  obtain ⟨s1, s2, s3, s4, s5, s6, s7⟩ := ord2ymd_spec _ hb.1 hm
+  generalize ord2ymd (ordinal c.year c.month c.day) = r at *
+  obtain ⟨y, m, d⟩ := r
+  simp only at s1 s2 s3 s4 s5 s6 s7
+  let c' : Civil := ⟨y, m, d, c.hour, c.minute, c.second, c.micro⟩
+  have hc' : c'.valid := by
+    obtain ⟨_, _, _, _, _, _, a7, a8, a9, a10⟩ := hc
+    exact ⟨s1, s2, s3, s4, s5, s6, a7, a8, a9, a10⟩
+  have h1 := ord_lt_iff c' c hc' hc
+  have h2 := ord_lt_iff c c' hc hc'
+  unfold dateLt at h1 h2
+  simp only [c'] at h1 h2
+  have : y = c.year ∧ m = c.month ∧ d = c.day := by omega
+  obtain ⟨rfl, rfl, rfl⟩ := this
+  rfl
+
+theorem boolToBytes_inj (a b : Bool) : boolToBytes (.obj a) = boolToBytes (.obj b) ↔ a = b := by
+  cases a <;> cases b <;> decide
 
 end WM.NumericDate
